@@ -39,6 +39,10 @@ def run(prog: Program, res: Result, tier: str) -> None:
              "chiral descriptor has kind PseudoScalar, achiral descriptors "
              "get the literal 0; nothing on a decision path is frame "
              "dependent (Tainted)")
+    res.rule("R-SET-ORDER", "the order of the entries of a descriptor's atom "
+             "tuple never comes from iterating a set (set / frozenset / set "
+             "algebra): that order follows hash values, not the order the "
+             "geometry was measured in")
     res.rule("R-POS-ID", "each _*_from_coords(atoms, coords) hands the "
              "descriptor constructor atom identifiers (elements of `atoms`), "
              "never raw positions")
@@ -132,6 +136,18 @@ def run(prog: Program, res: Result, tier: str) -> None:
         for c, _ in ctor:
             kw = {x.arg: x.value for x in c.keywords}
             ae = c.args[0] if c.args else kw.get("atoms")
+            so = set_ordered(fi, ae)
+            inst3 = f"{name}: order of the {cls} atoms is a measured order"
+            if so is None:
+                res.ok("R-SET-ORDER", inst3, fi.loc(c))
+            else:
+                res.bad("R-SET-ORDER", f"{name}: order from `{so}`",
+                        fi.loc(c), f"{name}: the atom tuple takes the order "
+                        f"of its entries from iterating the set `{so}`; the "
+                        "iteration order of a set follows the hash values of "
+                        "the identifiers, not the positions the handedness / "
+                        "angles were measured in, so the descriptor depends "
+                        "on how the atoms are numbered", instance=inst3)
             inst2 = f"{name}: {cls} atoms `{norm(ae, 60)}` are identifiers"
             ok, why = atoms_are_ids(fi, ae)
             if ok:
@@ -168,6 +184,69 @@ def run(prog: Program, res: Result, tier: str) -> None:
                     "used (row re-indexing, differences, cross, dot / einsum "
                     "/ sum of products over the last axis, norm, abs, sign)",
                     "exact real arithmetic, geometries off the thresholds"]
+
+
+def set_ordered(fi, ae: ast.AST):
+    """Text of a set-valued expression whose iteration order ends up in the
+    (ordered) atom tuple ae, or None."""
+    from ..core import reaching_defs
+
+    def is_set(e, depth=0):
+        if depth > 12:
+            return False
+        if isinstance(e, (ast.Set, ast.SetComp)):
+            return True
+        if isinstance(e, ast.Call) and call_name(e) in ("set", "frozenset"):
+            return True
+        if isinstance(e, ast.BinOp) and isinstance(
+                e.op, (ast.Sub, ast.BitAnd, ast.BitOr, ast.BitXor)):
+            return is_set(e.left, depth + 1) or is_set(e.right, depth + 1)
+        if isinstance(e, ast.Call) and isinstance(
+                e.func, ast.Attribute) and e.func.attr in (
+                "difference", "union", "intersection",
+                "symmetric_difference") and is_set(e.func.value, depth + 1):
+            return True
+        if isinstance(e, ast.Name):
+            defs = reaching_defs(fi.node, e)
+            return bool(defs) and all(kind == "assign" and is_set(v, depth + 1)
+                                      for v, kind in defs)
+        return False
+
+    def walk(e, depth=0):
+        if depth > 20 or e is None:
+            return None
+        if isinstance(e, ast.Starred):
+            if is_set(e.value):
+                return norm(e.value, 60)
+            return walk(e.value, depth + 1)
+        if isinstance(e, (ast.Tuple, ast.List)):
+            for x in e.elts:
+                r = walk(x, depth + 1)
+                if r:
+                    return r
+            return None
+        if isinstance(e, ast.Call) and call_name(e) in ("tuple", "list") \
+                and e.args:
+            if is_set(e.args[0]):
+                return norm(e.args[0], 60)
+            return walk(e.args[0], depth + 1)
+        if isinstance(e, (ast.ListComp, ast.GeneratorExp)):
+            for g in e.generators:
+                if is_set(g.iter):
+                    return norm(g.iter, 60)
+            return None
+        if isinstance(e, ast.BinOp) and isinstance(e.op, ast.Add):
+            return walk(e.left, depth + 1) or walk(e.right, depth + 1)
+        if isinstance(e, ast.IfExp):
+            return walk(e.body, depth + 1) or walk(e.orelse, depth + 1)
+        if isinstance(e, ast.Name):
+            for v, kind in reaching_defs(fi.node, e):
+                if kind == "assign":
+                    r = walk(v, depth + 1)
+                    if r:
+                        return r
+        return None
+    return walk(ae)
 
 
 def atoms_are_ids(fi, ae: ast.AST):
